@@ -39,6 +39,8 @@ pub struct RefStats {
     pub cut_pruned_left: u64,
     pub cut_then_fail: u64,
     pub cut_second_answer_suppressed: u64,
+    /// a group containing an executed cut was left and what followed failed
+    pub cut_group_left: u64,
     pub cut_in_callee_with_caller_alts: u64,
     pub not_succeeded: u64,
     pub not_failed: u64,
@@ -55,7 +57,7 @@ struct Frame {
     id: u64,
     cut: Cell<bool>,
     pending_clauses: Cell<bool>,
-    answers_at_cut: Cell<usize>,
+    cuts: Cell<usize>,
 }
 
 #[derive(Debug)]
@@ -126,7 +128,7 @@ pub fn solve_program(prog: &Program, limits: Limits) -> RefResult {
     let mut env = HashMap::new();
     let qargs: Vec<RT> = prog.qargs.iter().map(|t| instantiate(t, &mut env, &mut sv.s)).collect();
     let goal = RGoal::Call(prog.qname.clone(), qargs.clone());
-    let top = Frame { id: 0, cut: Cell::new(false), pending_clauses: Cell::new(false), answers_at_cut: Cell::new(0) };
+    let top = Frame { id: 0, cut: Cell::new(false), pending_clauses: Cell::new(false), cuts: Cell::new(0) };
     let mut k = |s: &mut Solver| -> Ctl {
         let ans: Vec<Term> = qargs.iter().map(|a| s.s.resolve(a)).collect();
         s.events.push(Event::Answer(ans));
@@ -170,12 +172,32 @@ impl<'p> Solver<'p> {
 
     fn solve(&mut self, g: &RGoal, frame: &Frame, depth: usize, k: &mut dyn FnMut(&mut Solver<'p>) -> Ctl) -> Ctl {
         match g {
-            RGoal::And(gs) => self.solve_seq(gs, frame, depth, k),
+            // A conjunction or disjunction written as one item of a body is a *group*: a node
+            // of its own in the proof tree. A cut executed inside it disables backtracking on
+            // it ("and all its ancestors"), so once the group has been left with a solution it
+            // is never re-entered: if what follows then fails, the call is over.
+            RGoal::And(gs) => {
+                let c0 = frame.cuts.get();
+                let mut kg = |s: &mut Solver<'p>| -> Ctl {
+                    let c1 = frame.cuts.get();
+                    let r = k(s);
+                    if r == Ctl::Continue && c1 > c0 { s.stats.cut_group_left += 1; return Ctl::Unwind(frame.id); }
+                    r
+                };
+                self.solve_seq(gs, frame, depth, &mut kg)
+            }
             RGoal::Or(gs) => {
                 let mut successes = 0u32;
+                let c0 = frame.cuts.get();
                 for (i, alt) in gs.iter().enumerate() {
                     let mark = self.s.mark();
-                    let mut k2 = |s: &mut Solver<'p>| { successes += 1; k(s) };
+                    let mut k2 = |s: &mut Solver<'p>| {
+                        successes += 1;
+                        let c1 = frame.cuts.get();
+                        let r = k(s);
+                        if r == Ctl::Continue && c1 > c0 { s.stats.cut_group_left += 1; return Ctl::Unwind(frame.id); }
+                        r
+                    };
                     let r = self.solve(alt, frame, depth, &mut k2);
                     self.s.undo(mark);
                     match r {
@@ -192,7 +214,7 @@ impl<'p> Solver<'p> {
             }
             RGoal::Not(inner) => {
                 if !self.step() { return Ctl::Halt; }
-                let nf = Frame { id: self.next_frame, cut: Cell::new(false), pending_clauses: Cell::new(false), answers_at_cut: Cell::new(0) };
+                let nf = Frame { id: self.next_frame, cut: Cell::new(false), pending_clauses: Cell::new(false), cuts: Cell::new(0) };
                 self.next_frame += 1;
                 let mark = self.s.mark();
                 let mut found = false;
@@ -213,7 +235,7 @@ impl<'p> Solver<'p> {
                 if frame.pending_clauses.get() { self.stats.cut_pending_clause += 1; }
                 if self.open_calls > 1 { self.stats.cut_in_callee_with_caller_alts += 1; }
                 frame.cut.set(true);
-                frame.answers_at_cut.set(self.stats.answers);
+                frame.cuts.set(frame.cuts.get() + 1);
                 let before = self.events.len();
                 let r = k(self);
                 match r {
@@ -269,7 +291,7 @@ impl<'p> Solver<'p> {
                 if depth + 1 > self.stats.max_depth { self.stats.max_depth = depth + 1; }
                 let key = format!("{}/{}", name, args.len());
                 let idxs: Vec<usize> = match self.index.get(&key) { Some(v) => v.clone(), None => return Ctl::Continue };
-                let fr = Frame { id: self.next_frame, cut: Cell::new(false), pending_clauses: Cell::new(false), answers_at_cut: Cell::new(0) };
+                let fr = Frame { id: self.next_frame, cut: Cell::new(false), pending_clauses: Cell::new(false), cuts: Cell::new(0) };
                 self.next_frame += 1;
                 let mut successes = 0u32;
                 let n = idxs.len();
